@@ -126,6 +126,13 @@ func longTokenInputs(n int) []string {
 		strings.Repeat("@", n) + "{{ v }}",
 		strings.Repeat("\\", n) + "{{ v }}",
 		"{{ x" + strings.Repeat(".y", n/2) + " }}",
+		// round 17: an escape whose backslash is the n-th byte (or a neighbour) of a run of plain text
+		strings.Repeat("t", n-2) + "\\@if(x) tail {{ v }}",
+		strings.Repeat("t", n-1) + "\\@if(x) tail {{ v }}",
+		strings.Repeat("t", n) + "\\@end tail",
+		strings.Repeat("t", n-1) + "\\{{ x }} tail",
+		"{{ v }}" + strings.Repeat("é", (n-1)/2) + "\\@each(x in y) tail\n{{ w }}",
+		"{{ v }}\n" + strings.Repeat("t", n-1) + "\\@if(x)" + strings.Repeat("u", n-1) + "\\{{ x }} tail",
 	}
 }
 
